@@ -1,13 +1,530 @@
-(* ConcurrencyProofs.v — soundness of the lock discipline (C20). *)
+(* ConcurrencyProofs.v — soundness of the lock discipline (C20):
+   discipline_ok p eps = true  ->  for every number of threads, every
+   assignment of entry-point sequences and every schedule, the reachable
+   states are race free and deadlock free. *)
 From Saml Require Import Base Concurrency.
 Local Open Scope list_scope.
 
-(* ---------- the pinned tree's deadlock, in the semantics ---------- *)
+(* ---------- small facts ---------- *)
+Lemma mutex_eqb_eq a b : mutex_eqb a b = true <-> a = b.
+Proof. destruct a, b; cbn; split; congruence. Qed.
+
+Lemma hget_hset_same h m v : hget (hset h m v) m = v.
+Proof. destruct m; reflexivity. Qed.
+Lemma hget_hset_diff h m m' v : m' <> m -> hget (hset h m v) m' = hget h m'.
+Proof. destruct m, m'; cbn; congruence. Qed.
+Lemma held_ext a b : (forall m, hget a m = hget b m) -> a = b.
+Proof.
+  intros E. destruct a as [a1 a2], b as [b1 b2].
+  pose proof (E IdpConfigMu) as E1. pose proof (E Mu) as E2. cbn in E1, E2. congruence.
+Qed.
+Lemma held_eqb_eq a b : held_eqb a b = true -> a = b.
+Proof.
+  destruct a as [a1 a2], b as [b1 b2]. unfold held_eqb; cbn. intros E.
+  apply andb_true_iff in E as [E1 E2].
+  assert (forall x y : option bool,
+             match x, y with None, None => true | Some p, Some q => Bool.eqb p q | _, _ => false end = true -> x = y) as K.
+  { intros [[|]|] [[|]|]; cbn; congruence. }
+  apply K in E1. apply K in E2. congruence.
+Qed.
+
+Lemma memn_In t l : memn t l = true <-> In t l.
+Proof.
+  induction l as [|x r IH]; cbn; [split; [discriminate|tauto]|].
+  rewrite orb_true_iff, IH, Nat.eqb_eq. split; intros [E|E]; auto.
+Qed.
+Lemma memn_false t l : memn t l = false <-> ~ In t l.
+Proof. rewrite <- memn_In. destruct (memn t l); split; congruence. Qed.
+
+Lemma remove1_In_other t x l : x <> t -> (In x (remove1 t l) <-> In x l).
+Proof.
+  intros N. induction l as [|y r IH]; cbn; [tauto|].
+  destruct (Nat.eqb_spec t y) as [->|D]; cbn; [|rewrite IH]; intuition congruence.
+Qed.
+Lemma remove1_NoDup t l : NoDup l -> NoDup (remove1 t l) /\ ~ In t (remove1 t l).
+Proof.
+  induction l as [|y r IH]; cbn; intros ND; [split; [constructor|tauto]|].
+  inversion ND as [|? ? Hn ND']; subst.
+  destruct (Nat.eqb_spec t y) as [->|D]; [split; assumption|].
+  destruct (IH ND') as [A B]. split.
+  - constructor; [|exact A]. intros C. apply Hn. apply (remove1_In_other t y r); congruence.
+  - cbn. intros [C|C]; [congruence|tauto].
+Qed.
+Lemma removeall_In t x l : In x (removeall t l) <-> In x l /\ x <> t.
+Proof.
+  induction l as [|y r IH]; cbn; [tauto|].
+  destruct (Nat.eqb_spec t y) as [->|D]; cbn; rewrite IH; intuition congruence.
+Qed.
+
+Lemma nth_error_set_nth_same {A} n (x : A) l : (n < List.length l)%nat -> nth_error (set_nth n x l) n = Some x.
+Proof. revert n; induction l as [|y r IH]; intros [|n] Hn; cbn in *; try lia; [reflexivity|apply IH; lia]. Qed.
+Lemma nth_error_set_nth_diff {A} n k (x : A) l : n <> k -> nth_error (set_nth n x l) k = nth_error l k.
+Proof. revert n k; induction l as [|y r IH]; intros [|n] [|k] D; cbn; try congruence; try reflexivity. apply IH; congruence. Qed.
+Lemma set_nth_length {A} n (x : A) l : List.length (set_nth n x l) = List.length l.
+Proof. revert n; induction l as [|y r IH]; intros [|n]; cbn; try reflexivity. now rewrite IH. Qed.
+
+(* ---------- what a thread holds, read off the lock state ---------- *)
+Definition holds (L : lockst) (t : nat) : option bool :=
+  match writer L with
+  | Some t' => if Nat.eqb t t' then Some true else None
+  | None => if memn t (readers L) then Some false else None
+  end.
+Definition held_of (st : cstate) (t : nat) : held :=
+  {| h_cfg := holds (l_cfg st) t; h_mu := holds (l_mu st) t |}.
+Lemma hget_held_of st t m : hget (held_of st t) m = holds (lk st m) t.
+Proof. destruct m; reflexivity. Qed.
+
+Record lock_wf (st : cstate) (m : mutex) : Prop := {
+  wf_excl : forall t, writer (lk st m) = Some t -> readers (lk st m) = [];
+  wf_nodup : NoDup (readers (lk st m));
+  wf_wait : forall t, In t (waiting (lk st m)) -> next_act st t = Some (Acq m true);
+  wf_valid : forall t, holds (lk st m) t <> None -> (t < List.length (code st))%nat
+}.
+
+Record Inv (st : cstate) : Prop := {
+  inv_code : forall t c, nth_error (code st) t = Some c -> run_flat c (held_of st t) = Some hempty;
+  inv_lock : forall m, lock_wf st m
+}.
+
+Lemma lk_set_lk_same st m v : lk (set_lk st m v) m = v.
+Proof. destruct m; reflexivity. Qed.
+Lemma lk_set_lk_diff st m m' v : m' <> m -> lk (set_lk st m v) m' = lk st m'.
+Proof. destruct m, m'; cbn; congruence. Qed.
+Lemma code_set_lk st m v : code (set_lk st m v) = code st.
+Proof. destruct m; reflexivity. Qed.
+Lemma lk_set_code st t c m : lk (set_code st t c) m = lk st m.
+Proof. destruct m; reflexivity. Qed.
+Lemma code_set_code st t c : code (set_code st t c) = set_nth t c (code st).
+Proof. reflexivity. Qed.
+
+Lemma next_act_set_code_diff st t c t' : t <> t' -> next_act (set_code st t c) t' = next_act st t'.
+Proof. intros D. unfold next_act. rewrite code_set_code, nth_error_set_nth_diff by exact D. reflexivity. Qed.
+Lemma next_act_set_lk st m v t : next_act (set_lk st m v) t = next_act st t.
+Proof. unfold next_act. now rewrite code_set_lk. Qed.
+
+(* ---------- one step preserves the invariant ---------- *)
+(* a generic re-establishment lemma: the stepping thread t replaces its code by
+   [rest] and one mutex m changes to L'; what must be checked is local *)
+Lemma inv_step_generic st t a rest m L' h' :
+  Inv st ->
+  nth_error (code st) t = Some (a :: rest) ->
+  step_flat a (held_of st t) = Some h' ->
+  (* the stepping thread now holds h' *)
+  holds L' t = hget h' m ->
+  (forall m', m' <> m -> hget h' m' = hget (held_of st t) m') ->
+  (* nobody else's holdings change *)
+  (forall t', t' <> t -> holds L' t' = holds (lk st m) t') ->
+  (* the lock stays well formed *)
+  (forall x, writer L' = Some x -> readers L' = []) ->
+  NoDup (readers L') ->
+  (forall x, In x (waiting L') -> In x (waiting (lk st m)) /\ x <> t) ->
+  (forall m' x, m' <> m -> In x (waiting (lk st m')) -> x <> t) ->
+  Inv (set_code (set_lk st m L') t rest).
+Proof.
+  intros I Hc Hs Hh Hoth Hpres Wex Wnd Wwait Wwait'.
+  assert (Ht : (t < List.length (code st))%nat) by (apply nth_error_Some; congruence).
+  pose proof (inv_code st I t _ Hc) as Hrun. cbn [run_flat] in Hrun. rewrite Hs in Hrun.
+  assert (Hheld_t : held_of (set_code (set_lk st m L') t rest) t = h').
+  { apply held_ext. intros m'. rewrite hget_held_of, lk_set_code.
+    destruct (mutex_eqb m' m) eqn:E.
+    - apply mutex_eqb_eq in E; subst m'. now rewrite lk_set_lk_same.
+    - assert (m' <> m) as D by (intros ->; destruct m; discriminate).
+      rewrite lk_set_lk_diff by exact D. rewrite Hoth by exact D. now rewrite hget_held_of. }
+  assert (Hheld_o : forall t', t' <> t -> held_of (set_code (set_lk st m L') t rest) t' = held_of st t').
+  { intros t' D. apply held_ext. intros m'. rewrite !hget_held_of, lk_set_code.
+    destruct (mutex_eqb m' m) eqn:E.
+    - apply mutex_eqb_eq in E; subst m'. rewrite lk_set_lk_same. now apply Hpres.
+    - assert (m' <> m) as D' by (intros ->; destruct m; discriminate).
+      now rewrite lk_set_lk_diff by exact D'. }
+  constructor.
+  - intros t' c Hn. rewrite code_set_code, code_set_lk in Hn.
+    destruct (Nat.eq_dec t t') as [<-|D].
+    + rewrite nth_error_set_nth_same in Hn by exact Ht. injection Hn as <-. now rewrite Hheld_t.
+    + rewrite nth_error_set_nth_diff in Hn by exact D. rewrite Hheld_o by congruence.
+      now apply (inv_code st I).
+  - intros m'. pose proof (inv_lock st I m') as W.
+    destruct (mutex_eqb m' m) eqn:E.
+    + apply mutex_eqb_eq in E; subst m'. constructor; rewrite ?lk_set_code, ?lk_set_lk_same.
+      * exact Wex.
+      * exact Wnd.
+      * intros x Hx. destruct (Wwait x Hx) as [Hx' Dx].
+        rewrite next_act_set_code_diff by congruence. rewrite next_act_set_lk. now apply (wf_wait st m W).
+      * intros x Hx. rewrite code_set_code, code_set_lk, set_nth_length.
+        destruct (Nat.eq_dec x t) as [->|Dx]; [exact Ht|].
+        apply (wf_valid st m W). now rewrite <- Hpres by exact Dx.
+    + assert (m' <> m) as D' by (intros ->; destruct m; discriminate).
+      constructor; rewrite ?lk_set_code, ?lk_set_lk_diff by exact D'.
+      * apply (wf_excl st m' W).
+      * apply (wf_nodup st m' W).
+      * intros x Hx. pose proof (Wwait' m' x D' Hx) as Dx.
+        rewrite next_act_set_code_diff by congruence. rewrite next_act_set_lk. now apply (wf_wait st m' W).
+      * intros x Hx. rewrite code_set_code, code_set_lk, set_nth_length. now apply (wf_valid st m' W).
+Qed.
+
+Lemma next_act_of st t a rest : nth_error (code st) t = Some (a :: rest) -> next_act st t = Some a.
+Proof. intros E. unfold next_act. now rewrite E. Qed.
+
+(* waiting threads of another mutex are not the stepping thread unless it stands at that Acq *)
+Lemma waiting_other st t a rest m :
+  Inv st -> nth_error (code st) t = Some (a :: rest) ->
+  (forall m', a <> Acq m' true) \/ (exists w, a = Acq m w) ->
+  forall m' x, m' <> m -> In x (waiting (lk st m')) -> x <> t.
+Proof.
+  intros I Hc Ha m' x D Hx ->.
+  pose proof (wf_wait st m' (inv_lock st I m') t Hx) as Hn.
+  rewrite (next_act_of st t a rest Hc) in Hn. injection Hn as ->.
+  destruct Ha as [Ha|[w Ha]]; [now apply (Ha m')|]. injection Ha as -> _. congruence.
+Qed.
+
+Lemma tstep_inv st t st' : Inv st -> tstep st t = Some st' -> Inv st'.
+Proof.
+  intros I Hst. unfold tstep in Hst.
+  destruct (nth_error (code st) t) as [[|a rest]|] eqn:Hc; try discriminate.
+  pose proof (inv_code st I t _ Hc) as Hrun. cbn [run_flat] in Hrun.
+  destruct (step_flat a (held_of st t)) as [h'|] eqn:Hs; [|discriminate].
+  pose proof (inv_lock st I) as W. pose proof Hs as Hs0.
+  destruct a as [m [|]|m [|]|l|l|f|why]; try discriminate.
+  - (* Lock *)
+    cbn [step_flat] in Hs. rewrite hget_held_of in Hs.
+    destruct (holds (lk st m) t) eqn:Hh; [discriminate|].
+    destruct (order_ok (held_of st t) m); [|discriminate]. injection Hs as <-.
+    destruct (is_free (lk st m)) eqn:Hf.
+    + injection Hst as <-. unfold is_free in Hf.
+      destruct (writer (lk st m)) eqn:Hw; [discriminate|]. destruct (readers (lk st m)) eqn:Hr; [|discriminate].
+      eapply inv_step_generic; try eassumption.
+      * rewrite hget_hset_same. unfold holds; cbn. now rewrite Nat.eqb_refl.
+      * intros m' D. now rewrite hget_hset_diff.
+      * intros t' D. unfold holds; cbn. rewrite Hw, Hr; cbn.
+        destruct (Nat.eqb_spec t' t); [congruence|reflexivity].
+      * reflexivity.
+      * constructor.
+      * cbn. intros x Hx. apply removeall_In in Hx. tauto.
+      * eapply waiting_other; try eassumption. right; eauto.
+    + destruct (memn t (waiting (lk st m))) eqn:Hm; [discriminate|]. injection Hst as <-.
+      (* announce: only the waiting list grows *)
+      constructor.
+      * intros t' c Hn. rewrite code_set_lk in Hn.
+        replace (held_of (set_lk st m _) t') with (held_of st t'); [now apply (inv_code st I)|].
+        apply held_ext. intros m'. rewrite !hget_held_of.
+        destruct (mutex_eqb m' m) eqn:E.
+        -- apply mutex_eqb_eq in E; subst m'. now rewrite lk_set_lk_same.
+        -- assert (m' <> m) as D' by (intros ->; destruct m; discriminate). now rewrite lk_set_lk_diff.
+      * intros m'. destruct (mutex_eqb m' m) eqn:E.
+        -- apply mutex_eqb_eq in E; subst m'.
+           constructor; rewrite ?lk_set_lk_same; cbn.
+           ++ apply (wf_excl st m (W m)).
+           ++ apply (wf_nodup st m (W m)).
+           ++ intros x [<-|Hx]; rewrite next_act_set_lk; [now apply (next_act_of st t _ rest)|now apply (wf_wait st m (W m))].
+           ++ intros x Hx. rewrite code_set_lk. now apply (wf_valid st m (W m)).
+        -- assert (m' <> m) as D' by (intros ->; destruct m; discriminate).
+           constructor; rewrite ?lk_set_lk_diff by exact D'.
+           ++ apply (wf_excl st m' (W m')).
+           ++ apply (wf_nodup st m' (W m')).
+           ++ intros x Hx. rewrite next_act_set_lk. now apply (wf_wait st m' (W m')).
+           ++ intros x Hx. rewrite code_set_lk. now apply (wf_valid st m' (W m')).
+  - (* RLock *)
+    cbn [step_flat] in Hs. rewrite hget_held_of in Hs.
+    destruct (holds (lk st m) t) eqn:Hh; [discriminate|].
+    destruct (order_ok (held_of st t) m) eqn:O; [|discriminate]. injection Hs as <-.
+    destruct (writer (lk st m)) eqn:Hw; [discriminate|]. destruct (waiting (lk st m)) eqn:Hwt; [|discriminate].
+    injection Hst as <-.
+    assert (Hnr : memn t (readers (lk st m)) = false).
+    { unfold holds in Hh. rewrite Hw in Hh. destruct (memn t (readers (lk st m))); [discriminate|reflexivity]. }
+    eapply inv_step_generic; try eassumption.
+    + rewrite hget_hset_same. unfold holds; cbn. now rewrite Nat.eqb_refl.
+    + intros m' D. now rewrite hget_hset_diff.
+    + intros t' D. unfold holds; cbn. rewrite Hw. destruct (Nat.eqb_spec t' t); [congruence|reflexivity].
+    + cbn. discriminate.
+    + cbn. constructor; [now apply memn_false|apply (wf_nodup st m (W m))].
+    + cbn. tauto.
+    + eapply waiting_other; try eassumption. right; eauto.
+  - (* Unlock *)
+    cbn [step_flat] in Hs. rewrite hget_held_of in Hs.
+    destruct (holds (lk st m) t) as [w'|] eqn:Hh; [|discriminate].
+    destruct w'; cbn [step_flat] in Hs; [|discriminate]. injection Hs as <-.
+    destruct (writer (lk st m)) as [t'|] eqn:Hw; [|discriminate].
+    destruct (Nat.eqb_spec t t') as [<-|]; [|discriminate]. injection Hst as <-.
+    pose proof (wf_excl st m (W m) t Hw) as Hr.
+    eapply inv_step_generic; try eassumption.
+    + rewrite hget_hset_same. unfold holds; cbn. now rewrite Hr.
+    + intros m' D. now rewrite hget_hset_diff.
+    + intros x D. unfold holds; cbn. rewrite Hw, Hr. cbn. destruct (Nat.eqb_spec x t); [congruence|reflexivity].
+    + cbn. discriminate.
+    + cbn. apply (wf_nodup st m (W m)).
+    + cbn. intros x Hx. split; [exact Hx|]. intros ->.
+      pose proof (wf_wait st m (W m) t Hx) as Hn. rewrite (next_act_of st t _ rest Hc) in Hn. discriminate.
+    + eapply waiting_other; try eassumption. left. intros m'. discriminate.
+  - (* RUnlock *)
+    cbn [step_flat] in Hs. rewrite hget_held_of in Hs.
+    destruct (holds (lk st m) t) as [w'|] eqn:Hh; [|discriminate].
+    destruct w'; cbn [step_flat] in Hs; [discriminate|]. injection Hs as <-.
+    destruct (memn t (readers (lk st m))) eqn:Hm; [|discriminate]. injection Hst as <-.
+    assert (Hw : writer (lk st m) = None).
+    { unfold holds in Hh. destruct (writer (lk st m)); [|reflexivity]. destruct (Nat.eqb t n); discriminate. }
+    destruct (remove1_NoDup t _ (wf_nodup st m (W m))) as [ND Hnot].
+    eapply inv_step_generic; try eassumption.
+    + rewrite hget_hset_same. unfold holds; cbn. rewrite Hw.
+      apply memn_false in Hnot. now rewrite Hnot.
+    + intros m' D. now rewrite hget_hset_diff.
+    + intros x D. unfold holds; cbn. rewrite Hw.
+      destruct (memn x (remove1 t (readers (lk st m)))) eqn:A, (memn x (readers (lk st m))) eqn:B; try reflexivity.
+      * apply memn_In in A. apply remove1_In_other in A; [|exact D]. apply memn_In in A. congruence.
+      * apply memn_In in B. apply (remove1_In_other t x) in B; [|exact D]. apply memn_In in B. congruence.
+    + cbn. rewrite Hw. discriminate.
+    + cbn. intros x Hx. split; [exact Hx|]. intros ->.
+      pose proof (wf_wait st m (W m) t Hx) as Hn. rewrite (next_act_of st t _ rest Hc) in Hn. discriminate.
+    + eapply waiting_other; try eassumption. left. intros m'. discriminate.
+  - (* Rd *)
+    injection Hst as <-. cbn [step_flat] in Hs. destruct (hget (held_of st t) (guard l)) eqn:G; [|discriminate]. injection Hs as <-.
+    replace (set_code st t rest) with (set_code (set_lk st Mu (lk st Mu)) t rest) by (destruct st; reflexivity).
+    eapply inv_step_generic with (m := Mu); try eassumption.
+    + now rewrite hget_held_of.
+    + reflexivity.
+    + reflexivity.
+    + apply (wf_excl st Mu (W Mu)).
+    + apply (wf_nodup st Mu (W Mu)).
+    + intros x Hx. split; [exact Hx|]. intros ->.
+      pose proof (wf_wait st Mu (W Mu) t Hx) as Hn. rewrite (next_act_of st t _ rest Hc) in Hn. discriminate.
+    + eapply waiting_other; try eassumption. left. intros m'. discriminate.
+  - (* Wr *)
+    injection Hst as <-. cbn [step_flat] in Hs. destruct (hget (held_of st t) (guard l)) as [[|]|] eqn:G; try discriminate. injection Hs as <-.
+    replace (set_code st t rest) with (set_code (set_lk st Mu (lk st Mu)) t rest) by (destruct st; reflexivity).
+    eapply inv_step_generic with (m := Mu); try eassumption.
+    + now rewrite hget_held_of.
+    + reflexivity.
+    + reflexivity.
+    + apply (wf_excl st Mu (W Mu)).
+    + apply (wf_nodup st Mu (W Mu)).
+    + intros x Hx. split; [exact Hx|]. intros ->.
+      pose proof (wf_wait st Mu (W Mu) t Hx) as Hn. rewrite (next_act_of st t _ rest Hc) in Hn. discriminate.
+    + eapply waiting_other; try eassumption. left. intros m'. discriminate.
+Qed.
+
+Lemma run_inv st sched : Inv st -> Inv (run st sched).
+Proof.
+  revert st; induction sched as [|t r IH]; intros st I; cbn; [exact I|].
+  apply IH. destruct (tstep st t) eqn:E; [eapply tstep_inv; eassumption|exact I].
+Qed.
+
+(* ---------- race freedom ---------- *)
+Lemma inv_race_free st : Inv st -> race_free st.
+Proof.
+  intros I t1 t2 l (D & H1 & H2).
+  assert (forall t a, next_act st t = Some a -> exists h, step_flat a (held_of st t) = Some h) as K.
+  { intros t a Hn. unfold next_act in Hn.
+    destruct (nth_error (code st) t) as [[|a' rest]|] eqn:Hc; try discriminate. injection Hn as ->.
+    pose proof (inv_code st I t _ Hc) as Hrun. cbn in Hrun.
+    destruct (step_flat a (held_of st t)); [eauto|discriminate]. }
+  destruct (K _ _ H1) as [h1 S1]. cbn [step_flat] in S1. rewrite hget_held_of in S1.
+  assert (writer (lk st (guard l)) = Some t1) as Hw.
+  { unfold holds in S1. destruct (writer (lk st (guard l))) as [t'|].
+    - destruct (Nat.eqb_spec t1 t'); [congruence|discriminate].
+    - destruct (memn t1 (readers (lk st (guard l)))); discriminate. }
+  assert (holds (lk st (guard l)) t2 <> None) as Hh2.
+  { destruct H2 as [H2|H2]; destruct (K _ _ H2) as [h2 S2]; cbn [step_flat] in S2; rewrite hget_held_of in S2;
+      destruct (holds (lk st (guard l)) t2) as [[|]|]; congruence. }
+  apply Hh2. unfold holds. rewrite Hw. destruct (Nat.eqb_spec t2 t1); [congruence|reflexivity].
+Qed.
+
+(* conflicting critical sections exclude each other: whoever holds a mutex
+   exclusively is its only holder *)
+Lemma inv_exclusive st m t1 t2 :
+  Inv st -> hget (held_of st t1) m = Some true -> t1 <> t2 -> hget (held_of st t2) m = None.
+Proof.
+  intros I H1 D. rewrite hget_held_of in *. unfold holds in *.
+  destruct (writer (lk st m)) as [t'|] eqn:Hw.
+  - destruct (Nat.eqb_spec t1 t'); [subst t'|discriminate]. destruct (Nat.eqb_spec t2 t1); [congruence|reflexivity].
+  - destruct (memn t1 (readers (lk st m))); discriminate.
+Qed.
+
+(* ---------- deadlock freedom ---------- *)
+Lemma holder_unfinished st m t :
+  Inv st -> holds (lk st m) t <> None ->
+  exists a rest h', nth_error (code st) t = Some (a :: rest) /\ step_flat a (held_of st t) = Some h'.
+Proof.
+  intros I Hh. pose proof (wf_valid st m (inv_lock st I m) t Hh) as Ht.
+  destruct (nth_error (code st) t) as [c|] eqn:Hc; [|apply nth_error_None in Hc; lia].
+  pose proof (inv_code st I t _ Hc) as Hrun. destruct c as [|a rest].
+  - cbn [run_flat] in Hrun. assert (held_of st t = hempty) as E by congruence.
+    exfalso. apply Hh. rewrite <- hget_held_of. rewrite E. destruct m; reflexivity.
+  - cbn [run_flat] in Hrun. destruct (step_flat a (held_of st t)) eqn:S; [eauto 6|discriminate].
+Qed.
+
+(* an act other than a lock acquisition that the discipline accepts can be executed *)
+Lemma non_acq_steps st t a rest h' :
+  Inv st -> nth_error (code st) t = Some (a :: rest) -> step_flat a (held_of st t) = Some h' ->
+  (forall m w, a <> Acq m w) -> tstep st t <> None.
+Proof.
+  intros I Hc Hs Ha. unfold tstep. rewrite Hc.
+  destruct a as [m w|m [|]|l|l|f|why]; try discriminate.
+  - exfalso. now apply (Ha m w).
+  - cbn [step_flat] in Hs. rewrite hget_held_of in Hs. unfold holds in Hs.
+    destruct (writer (lk st m)) as [t'|].
+    + destruct (Nat.eqb_spec t t'); [discriminate|discriminate].
+    + destruct (memn t (readers (lk st m))); [|discriminate]. cbn [step_flat] in Hs. discriminate.
+  - cbn [step_flat] in Hs. rewrite hget_held_of in Hs. unfold holds in Hs.
+    destruct (writer (lk st m)) as [t'|].
+    + destruct (Nat.eqb_spec t t'); cbn [step_flat] in Hs; discriminate.
+    + destruct (memn t (readers (lk st m))); discriminate.
+Qed.
+
+Lemma rank_cases m m' : rank m' <? rank m = true -> m' = IdpConfigMu /\ m = Mu.
+Proof. destruct m, m'; cbn; try discriminate; auto. Qed.
+
+(* whoever holds Mu stands at something other than an acquisition *)
+Lemma mu_holder_steps st t : Inv st -> holds (lk st Mu) t <> None -> tstep st t <> None.
+Proof.
+  intros I Hh. destruct (holder_unfinished st Mu t I Hh) as (a & rest & h' & Hc & Hs).
+  eapply non_acq_steps; try eassumption. intros m w ->.
+  cbn [step_flat] in Hs. destruct (hget (held_of st t) m) eqn:G; [discriminate|].
+  destruct (order_ok (held_of st t) m) eqn:O; [|discriminate].
+  unfold order_ok, all_mutexes in O. cbn [forallb] in O. rewrite !andb_true_iff in O. destruct O as (_ & O & _).
+  rewrite (hget_held_of st t Mu) in O. destruct (holds (lk st Mu) t) eqn:E; [|congruence].
+  apply rank_cases in O as [O _]. discriminate.
+Qed.
+
+Lemma acq_progress st t m w rest :
+  Inv st -> nth_error (code st) t = Some (Acq m w :: rest) ->
+  (forall t', holds (lk st m) t' <> None -> exists t'', tstep st t'' <> None) ->
+  exists t'', tstep st t'' <> None.
+Proof.
+  intros I Hc Hold.
+  destruct (writer (lk st m)) as [tw|] eqn:Hw.
+  { apply (Hold tw). unfold holds. rewrite Hw, Nat.eqb_refl. discriminate. }
+  destruct (readers (lk st m)) as [|tr rr] eqn:Hr.
+  2:{ apply (Hold tr). unfold holds. rewrite Hw, Hr. cbn. rewrite Nat.eqb_refl. discriminate. }
+  (* the mutex is free *)
+  destruct w.
+  - exists t. unfold tstep. rewrite Hc. unfold is_free. rewrite Hw, Hr. discriminate.
+  - destruct (waiting (lk st m)) as [|tw rw] eqn:Hwt.
+    + exists t. unfold tstep. rewrite Hc. cbn. rewrite Hw, Hwt. discriminate.
+    + (* a writer is waiting although the mutex is free: it can take it *)
+      pose proof (wf_wait st m (inv_lock st I m) tw) as Hn. rewrite Hwt in Hn. specialize (Hn (or_introl eq_refl)).
+      unfold next_act in Hn. destruct (nth_error (code st) tw) as [[|a' r']|] eqn:Hc'; try discriminate. injection Hn as ->.
+      exists tw. unfold tstep. rewrite Hc'. unfold is_free. rewrite Hw, Hr. discriminate.
+Qed.
+
+Lemma inv_deadlock_free st : Inv st -> deadlock_free st.
+Proof.
+  intros I [t0 (a0 & r0 & Hc0)].
+  assert (Mu_ok : forall t rest w, nth_error (code st) t = Some (Acq Mu w :: rest) -> exists t'', tstep st t'' <> None).
+  { intros t rest w Hc. eapply acq_progress; try eassumption. intros t' Hh. exists t'. now apply mu_holder_steps. }
+  assert (Cfg_holder : forall t', holds (lk st IdpConfigMu) t' <> None -> exists t'', tstep st t'' <> None).
+  { intros t' Hh. destruct (holder_unfinished st IdpConfigMu t' I Hh) as (a & rest & h' & Hc & Hs).
+    destruct a as [m w|m w|l|l|f|why]; try (cbn [step_flat] in Hs; discriminate).
+    - destruct m.
+      + exfalso. cbn [step_flat] in Hs. rewrite (hget_held_of st t' IdpConfigMu) in Hs.
+        destruct (holds (lk st IdpConfigMu) t'); [discriminate|congruence].
+      + eapply Mu_ok; eassumption.
+    - exists t'. eapply non_acq_steps; try eassumption. intros; discriminate.
+    - exists t'. eapply non_acq_steps; try eassumption. intros; discriminate.
+    - exists t'. eapply non_acq_steps; try eassumption. intros; discriminate. }
+  pose proof (inv_code st I t0 _ Hc0) as Hrun. cbn in Hrun.
+  destruct (step_flat a0 (held_of st t0)) as [h'|] eqn:Hs; [|discriminate].
+  destruct a0 as [m w|m w|l|l|f|why]; try (cbn [step_flat] in Hs; discriminate).
+  - destruct m.
+    + eapply acq_progress; try eassumption.
+    + eapply Mu_ok; eassumption.
+  - exists t0. eapply non_acq_steps; try eassumption. intros; discriminate.
+  - exists t0. eapply non_acq_steps; try eassumption. intros; discriminate.
+  - exists t0. eapply non_acq_steps; try eassumption. intros; discriminate.
+Qed.
+
+(* ---------- from the checker to the initial invariant ---------- *)
+Lemma run_flat_app a b h : run_flat (a ++ b) h = match run_flat a h with Some h' => run_flat b h' | None => None end.
+Proof. revert h; induction a as [|x a IH]; intros h; cbn; [reflexivity|]. destruct (step_flat x h); [apply IH|reflexivity]. Qed.
+
+Lemma check_flat_run l : check_flat l = true -> run_flat l hempty = Some hempty.
+Proof. unfold check_flat. destruct (run_flat l hempty) as [h|]; [|discriminate]. intros E. apply held_eqb_eq in E. now subst. Qed.
+
+Lemma discipline_entry p eps f :
+  discipline_ok p eps = true -> In f eps -> exists l, expand p f = Some l /\ run_flat l hempty = Some hempty.
+Proof.
+  unfold discipline_ok. intros D Hf. apply andb_true_iff in D as [_ D].
+  rewrite forallb_forall in D. specialize (D f Hf). unfold entry_ok in D.
+  destruct (expand p f) as [l|]; [|discriminate]. exists l. split; [reflexivity|now apply check_flat_run].
+Qed.
+
+Lemma expand_seq_ok p eps invs c :
+  discipline_ok p eps = true -> (forall f, In f invs -> In f eps) ->
+  expand_seq p invs = Some c -> run_flat c hempty = Some hempty.
+Proof.
+  intros D. revert c; induction invs as [|f r IH]; intros c Hin E; cbn [expand_seq] in E.
+  - injection E as <-. reflexivity.
+  - destruct (expand p f) as [a|] eqn:Ea; [|discriminate]. destruct (expand_seq p r) as [b|] eqn:Eb; [|discriminate].
+    injection E as <-. rewrite run_flat_app.
+    destruct (discipline_entry p eps f D (Hin f (or_introl eq_refl))) as (l & El & Rl). rewrite Ea in El. injection El as <-.
+    rewrite Rl. apply IH; [|reflexivity]. intros g Hg. apply Hin. now right.
+Qed.
+
+Lemma expand_threads_ok p eps ts codes :
+  discipline_ok p eps = true -> (forall invs f, In invs ts -> In f invs -> In f eps) ->
+  expand_threads p ts = Some codes -> forall c, In c codes -> run_flat c hempty = Some hempty.
+Proof.
+  intros D. revert codes; induction ts as [|t r IH]; intros codes Hin E c Hc; cbn [expand_threads] in E.
+  - injection E as <-. destruct Hc.
+  - destruct (expand_seq p t) as [a|] eqn:Ea; [|discriminate]. destruct (expand_threads p r) as [b|] eqn:Eb; [|discriminate].
+    injection E as <-. destruct Hc as [<-|Hc].
+    + eapply expand_seq_ok; try eassumption. intros f Hf. eapply Hin; [left; reflexivity|exact Hf].
+    + eapply IH; try eassumption; [|reflexivity]. intros invs f Hi Hf. eapply Hin; [right; exact Hi|exact Hf].
+Qed.
+
+Lemma init_inv codes : (forall c, In c codes -> run_flat c hempty = Some hempty) -> Inv (init codes).
+Proof.
+  intros Hok. constructor.
+  - intros t c Hn. replace (held_of (init codes) t) with hempty by reflexivity.
+    apply Hok. eapply nth_error_In; eassumption.
+  - intros m. constructor; destruct m; cbn; try discriminate; try constructor; try tauto;
+      intros t Hh; exfalso; apply Hh; reflexivity.
+Qed.
+
+(* ---------- the soundness theorem ---------- *)
+Theorem discipline_sound_l :
+  forall p eps, discipline_ok p eps = true ->
+  forall (ts : list (list fname)) codes,
+    (forall invs f, In invs ts -> In f invs -> In f eps) ->
+    expand_threads p ts = Some codes ->
+    forall sched, race_free (run (init codes) sched) /\ deadlock_free (run (init codes) sched).
+Proof.
+  intros p eps D ts codes Hin E sched.
+  assert (Inv (run (init codes) sched)) as I.
+  { apply run_inv, init_inv. eapply expand_threads_ok; eassumption. }
+  split; [now apply inv_race_free|now apply inv_deadlock_free].
+Qed.
+
+(* every access to a guarded location in a reachable state is made by a thread
+   that holds the guard (exclusively for writes), and an exclusive holder is the
+   only holder: conflicting critical sections never overlap, which is what makes
+   each store operation atomic with respect to the others *)
+Theorem critical_sections_exclusive_l :
+  forall p eps, discipline_ok p eps = true ->
+  forall ts codes,
+    (forall invs f, In invs ts -> In f invs -> In f eps) ->
+    expand_threads p ts = Some codes ->
+    forall sched, let st := run (init codes) sched in
+      (forall t l, next_act st t = Some (Rd l) -> hget (held_of st t) (guard l) <> None) /\
+      (forall t l, next_act st t = Some (Wr l) -> hget (held_of st t) (guard l) = Some true) /\
+      (forall m t1 t2, hget (held_of st t1) m = Some true -> t1 <> t2 -> hget (held_of st t2) m = None).
+Proof.
+  intros p eps D ts codes Hin E sched st.
+  assert (Inv st) as I. { apply run_inv, init_inv. eapply expand_threads_ok; eassumption. }
+  assert (forall t a, next_act st t = Some a -> exists h, step_flat a (held_of st t) = Some h) as K.
+  { intros t a Hn. unfold next_act in Hn.
+    destruct (nth_error (code st) t) as [[|a' rest]|] eqn:Hc; try discriminate. injection Hn as ->.
+    pose proof (inv_code st I t _ Hc) as Hrun. cbn in Hrun.
+    destruct (step_flat a (held_of st t)); [eauto|discriminate]. }
+  repeat split.
+  - intros t l Hn. destruct (K _ _ Hn) as [h S]. cbn [step_flat] in S. destruct (hget (held_of st t) (guard l)); [discriminate|discriminate].
+  - intros t l Hn. destruct (K _ _ Hn) as [h S]. cbn [step_flat] in S. destruct (hget (held_of st t) (guard l)) as [[|]|]; try discriminate. reflexivity.
+  - intros m t1 t2. now apply inv_exclusive.
+Qed.
+
+(* ---------- non-vacuity and the pinned tree's deadlock ---------- *)
 Definition reentrant_threads : list (list fname) :=
   [ ["Server.HandleIDPInitiated"]; ["Server.HandlePutService"] ].
 
-(* reader takes the outer read lock; the writer arrives and waits; the reader
-   re-enters: nobody can step although both are unfinished *)
+(* the reader takes the outer read lock; the writer arrives and waits; the
+   reader re-enters: nobody can step although both are unfinished *)
 Definition reentrant_witness : list nat := [0%nat; 1%nat].
 
 Lemma reentrant_rlock_deadlocks_l :
@@ -15,10 +532,64 @@ Lemma reentrant_rlock_deadlocks_l :
                 stuckb (run (init codes) reentrant_witness) = true.
 Proof. eexists. split; [vm_compute; reflexivity|vm_compute; reflexivity]. Qed.
 
+Lemma stuckb_not_deadlock_free st : stuckb st = true -> ~ deadlock_free st.
+Proof.
+  unfold stuckb. intros E. apply andb_true_iff in E as [U C]. intros DF.
+  unfold unfinishedb in U. apply existsb_exists in U as (c & Hc & Hne).
+  apply In_nth_error in Hc as [t Ht].
+  destruct DF as [t' Ht'].
+  { exists t. destruct c as [|a r]; [discriminate|]. now exists a, r. }
+  apply negb_true_iff in C. unfold can_stepb in C.
+  assert (existsb (fun t => match tstep st t with Some _ => true | None => false end) (seq 0 (List.length (code st))) = true) as X.
+  { apply existsb_exists. exists t'. split.
+    - apply in_seq. split; [lia|]. cbn.
+      destruct (nth_error (code st) t') eqn:N; [apply nth_error_Some; congruence|].
+      exfalso. apply Ht'. unfold tstep. now rewrite N.
+    - destruct (tstep st t'); [reflexivity|congruence]. }
+  congruence.
+Qed.
+
+Lemma reentrant_not_deadlock_free :
+  exists codes sched, expand_threads reentrant_program reentrant_threads = Some codes /\
+                      ~ deadlock_free (run (init codes) sched).
+Proof.
+  destruct reentrant_rlock_deadlocks_l as (codes & E & S).
+  exists codes, reentrant_witness. split; [exact E|now apply stuckb_not_deadlock_free].
+Qed.
+
 Lemma reentrant_program_rejected :
   discipline_ok reentrant_program ["Server.HandleIDPInitiated"; "Server.HandlePutService"] = false.
 Proof. vm_compute. reflexivity. Qed.
 
+(* the repaired shape is accepted, so the theorem applies to it (non-vacuity) *)
 Lemma fixed_program_accepted :
   discipline_ok fixed_program ["Server.HandleIDPInitiated"; "Server.HandlePutService"; "Server.GetServiceProvider"] = true.
 Proof. vm_compute. reflexivity. Qed.
+
+(* a lock-free read is rejected as well (the shape of MemoryStore.List before fix F11) *)
+Lemma unlocked_read_rejected :
+  discipline_ok [("MemoryStore.List", [Rd Data]); ("MemoryStore.Put", [Acq Mu true; Rd Data; Wr Data; Rel Mu true])]
+                ["MemoryStore.List"; "MemoryStore.Put"] = false.
+Proof. vm_compute. reflexivity. Qed.
+
+(* ... and it does race in the semantics *)
+Lemma unlocked_read_races :
+  exists codes sched t1 t2 l,
+    expand_threads [("MemoryStore.List", [Rd Data]); ("MemoryStore.Put", [Acq Mu true; Rd Data; Wr Data; Rel Mu true])]
+                   [["MemoryStore.Put"]; ["MemoryStore.List"]] = Some codes /\
+    race_at (run (init codes) sched) t1 t2 l.
+Proof.
+  eexists. exists [0%nat; 0%nat], 0%nat, 1%nat, Data. split; [vm_compute; reflexivity|].
+  unfold race_at. split; [discriminate|]. split; [vm_compute; reflexivity|left; vm_compute; reflexivity].
+Qed.
+
+(* lock-order inversion is rejected and deadlocks in the semantics *)
+Definition inversion_program : program :=
+  [ ("A", [Acq IdpConfigMu true; Acq Mu true; Rel Mu true; Rel IdpConfigMu true]);
+    ("B", [Acq Mu true; Acq IdpConfigMu true; Rel IdpConfigMu true; Rel Mu true]) ].
+Lemma inversion_rejected : discipline_ok inversion_program ["A"; "B"] = false.
+Proof. vm_compute. reflexivity. Qed.
+Lemma inversion_deadlocks :
+  exists codes, expand_threads inversion_program [["A"]; ["B"]] = Some codes /\
+                stuckb (run (init codes) [0%nat; 1%nat; 0%nat; 1%nat]) = true.
+Proof. eexists. split; [vm_compute; reflexivity|vm_compute; reflexivity]. Qed.
